@@ -12,7 +12,8 @@ from props.c14 import AXCLS, coord
 THEOREMS = ["Fteik.C09_vinterp2d_fill", "Fteik.C09_vinterp3d_fill", "Fteik.C09_vinterp2d_source_cell",
             "Fteik.C09_vinterp3d_source_cell", "Fteik.C09_vinterp2d_at_source", "Fteik.C09_vinterp3d_at_source",
             "Fteik.C09_vinterp2d_weights", "Fteik.C09_vinterp2d_zero_corner", "Fteik.C09_vinterp2d_homog_exact",
-            "Fteik.C09_vinterp2d_at_node", "Fteik.C09_vinterp3d_weights"]
+            "Fteik.C09_vinterp2d_at_node", "Fteik.C09_vinterp3d_weights", "Fteik.C09_vinterp3d_zero_corner",
+            "Fteik.C09_vinterp3d_homog_exact", "Fteik.C09_vinterp3d_at_node"]
 
 
 def ttgrids(r, n, nd):
@@ -48,7 +49,7 @@ def run(tier):
                f"perturbed times) x query points drawn per axis from {AXCLS} plus the source and its cell; distinct = "
                "distinct (ndim, source class, per-axis query class, branch taken) signatures")
     r = G.rng_for(C.seed(), "C09")
-    ck.lean(["FteikVerif.Props.C09", "FteikVerif.Props.C09b"], THEOREMS)
+    ck.lean(["FteikVerif.Props.C09", "FteikVerif.Props.C09b", "FteikVerif.Props.C09c"], THEOREMS)
     ng = 6 if tier == "quick" else 40
     npts = 40 if tier == "quick" else 120
     # ---- Tie A (kernel level)
@@ -151,8 +152,9 @@ def run(tier):
                  "2D: zero-time-corner fallback; exact for homogeneous node times; node value at a node"]
     ck.proved += ["3D: the same weights form over the eight corners, all 27 boundary classes (C09_vinterp3d_weights)",
                   "the bodies of _vinterp2d/_vinterp3d re-translated from the source equal the model (all boundary branches)"]
-    ck.partial = ["3D: zero-corner fallback, homogeneous exactness and node values are not separate theorems (2D only); "
-                  "checked by the oracle"]
+    ck.proved += ["3D: zero-corner fallback, exactness for homogeneous node times (all 27 boundary classes) and node values "
+                  "(C09_vinterp3d_zero_corner, _homog_exact, _at_node)"]
+    ck.partial = []
     ck.not_proved = ["the [distance/max, distance/min] bounds as a separate inequality theorem (corollary of the weights "
                      "form; checked by the oracle)"]
     ck.assumptions = ["real-number theorems: rounding not covered"]
